@@ -244,7 +244,7 @@ class Executor:
                 tgt = n.targets[0] if isinstance(n, ast.Assign) else n.target
                 if isinstance(tgt, ast.Name) and tgt.id == name and n.value is not None and isinstance(n.value, ast.Constant):
                     return self.lift(n.value.value) if not isinstance(n.value.value, str) else n.value.value
-                if isinstance(tgt, ast.Name) and tgt.id == name and n.value is not None and isinstance(n.value, (ast.Dict, ast.List, ast.Tuple, ast.Call)):
+                if isinstance(tgt, ast.Name) and tgt.id == name and n.value is not None and isinstance(n.value, (ast.Dict, ast.List, ast.Tuple, ast.Call, ast.BinOp, ast.Name)):
                     # a module-level container / object: evaluated ONCE, at module initialisation (objects made here are shared
                     # by every later call -- `module_init` lets contracts tell them from objects created during the call)
                     cache = st.ghost.setdefault("module_values", {})
